@@ -981,11 +981,43 @@ impl World {
         }
     }
 
+    /// A change made in a transaction scoped to older heads (isolate → edits → commit → integrate)
+    /// while the replica already holds later ops: its first op counter lies above "highest op of
+    /// its deps + 1".
+    pub fn isolated_commit(&mut self, rng: &mut Rng) {
+        let r = rng.below(self.docs.len());
+        self.commit(r);
+        let known: std::collections::BTreeSet<ChangeHash> = self.docs[r].get_changes(&[]).iter().map(|c| c.hash()).collect();
+        let cands: Vec<Vec<ChangeHash>> = self.head_sets.iter().filter(|h| h.iter().all(|x| known.contains(x))).cloned().collect();
+        if cands.is_empty() {
+            return;
+        }
+        let h = rng.pick(&cands).clone();
+        self.docs[r].isolate(&h);
+        self.gs.note("isolated_commit");
+        self.logln(format!("R{r}: isolate({} heads) + edits + commit + integrate", h.len()));
+        for _ in 0..rng.range(1, 3) {
+            let _ = random_edit(&mut self.docs[r], rng, &mut self.gs);
+        }
+        self.commit(r);
+        self.docs[r].integrate();
+        self.record(r);
+        // get_last_local_change does not show changes made under isolation: take them from the
+        // document right away (they were created by this replica just now)
+        for c in self.docs[r].get_changes(&[]) {
+            self.ledger.entry(c.hash()).or_insert(c);
+        }
+    }
+
     /// one random step: mostly edits, sometimes commit / merge
     pub fn step(&mut self, rng: &mut Rng) {
         let n = self.docs.len();
         if self.gs.profile.motifs && n > 1 && rng.chance(5) {
             self.motif(rng);
+            return;
+        }
+        if self.gs.profile.motifs && rng.chance(2) {
+            self.isolated_commit(rng);
             return;
         }
         let r = rng.below(n);
